@@ -1228,6 +1228,41 @@ class Analysis:
                         p_ = op_place(o_)
                         if p_ is not None and not p_['p'] and (p_['l'], ()) in self.refs:
                             self.refs[(s['lhs']['l'], (('f', i_, str(i_)), ))] = self.refs[(p_['l'], ())]
+                            self.refs[(s['lhs']['l'], (('f', i_, None), ))] = self.refs[(p_['l'], ())]
+        # a closure value that is moved (handed to a helper taking `impl FnOnce`, which was then made transparent) keeps what
+        # its captures point to
+        for _round in range(6):
+            grew = False
+            for bi in fn.reachable():
+                for s in fn.blocks[bi]['stmts']:
+                    if s['k'] == 'assign' and not s['lhs']['p'] and s['rv']['k'] == 'use':
+                        p_ = op_place(s['rv']['a'])
+                        if p_ is None or p_['p']:
+                            continue
+                        for k_ in [k_ for k_ in list(self.refs) if k_[0] == p_['l'] and k_[1] and k_[1][0][0] == 'f']:
+                            nk = (s['lhs']['l'], k_[1])
+                            if nk not in self.refs:
+                                self.refs[nk] = self.refs[k_]
+                                grew = True
+            if not grew:
+                break
+        # a reference read back out of a closure environment (`x = (*env).i` in the body of a closure that was made
+        # transparent): it points where capture i points
+        for bi in fn.reachable():
+            for s in fn.blocks[bi]['stmts']:
+                if s['k'] == 'assign' and not s['lhs']['p'] and s['rv']['k'] == 'use':
+                    p_ = op_place(s['rv']['a'])
+                    if p_ is None or not p_['p'] or place_key(s['lhs']) in self.refs:
+                        continue
+                    lt_ = fn.local_ty(s['lhs']['l'])
+                    if not lt_ or lt_.get('k') not in ('ref', 'ptr'):
+                        continue
+                    pk_ = place_key(p_)
+                    if not any(e[0] == 'f' for e in pk_[1]):
+                        continue
+                    r_ = self.root_of_ref(pk_)
+                    if r_ != pk_:
+                        self.refs[place_key(s['lhs'])] = r_
         for bi in fn.reachable():
             t = fn.blocks[bi]['term']
             if t['k'] == 'call' and t.get('callee') in ('core::convert::From::from', 'core::convert::Into::into') and \
